@@ -121,10 +121,11 @@ def programs():
         P.append(_prog("time-period-measure-" + tpf, ident,
                        {"DS_1": (["Id_1:Integer:I", "Me_1:Time_Period:M"], [(i, v) for i, v in enumerate(vals)] + [(99, None)])},
                        ["Time_Period", "null", "representation-" + tpf], tpf=tpf))
+        idv = ["2020", "2020S1", "2020S2", "2020Q3", "2020M1", "2020M12", "2020W01", "2020D366"] if tpf != "sdmx_gregorian" else ["2020", "2020M1", "2020M12", "2020D001", "2020D366", "2021-05"]
         P.append(_prog("time-period-identifier-" + tpf, ident,
-                       {"DS_1": (["Id_1:Time_Period:I", "Me_1:Integer:M"], [(v, i) for i, v in enumerate(vals[:7])])},
+                       {"DS_1": (["Id_1:Time_Period:I", "Me_1:Integer:M"], [(v, i) for i, v in enumerate(idv)])},
                        ["Time_Period-identifier", "representation-" + tpf], tpf=tpf))
-        P.append(_prog("time-period-scalar-" + tpf, 'sc_r <- cast("2020Q1", time_period); sc_m <- cast("2020M3", time_period); sc_a <- cast("2020", time_period);',
+        P.append(_prog("time-period-scalar-" + tpf, 'sc_r <- cast("%s", time_period); sc_m <- cast("2020M3", time_period); sc_a <- cast("2020", time_period);' % ("2020Q1" if tpf != "sdmx_gregorian" else "2020D032"),
                        {}, ["scalar", "Time_Period", "representation-" + tpf], tpf=tpf))
     P.append(_prog("time-interval-measure", ident,
                    {"DS_1": (["Id_1:Integer:I", "Me_1:Time:M"], [(1, "2020-01-01/2020-12-31"), (2, None), (3, "2020-01-01/2020-01-31"), (4, "1999-01-01/2030-06-30")])},
@@ -184,7 +185,7 @@ def programs():
                    scalars=[{"name": "sc_i", "type": "Integer"}, {"name": "sc_n", "type": "Number"}, {"name": "sc_b", "type": "Boolean"}, {"name": "sc_s", "type": "String"}],
                    scalar_values={"sc_i": None, "sc_n": None, "sc_b": None, "sc_s": None}))
     P.append(_prog("scalars-numbers", "sc_a <- 1 / 3; sc_b <- 9223372036854775807; sc_c <- -9223372036854775807; sc_d <- exp(700); sc_e <- power(10, -300); "
-                   "sc_f <- 0.1 + 0.2; sc_g <- 123456789.123456789; sc_h <- 0.0; sc_i <- -0.5; sc_j <- 1e0 * 100;", {},
+                   "sc_f <- 0.1 + 0.2; sc_g <- 123456789.123456789; sc_h <- 0.0; sc_i <- -0.5; sc_j <- 100 * 1.0;", {},
                    ["scalar", "Number", "Integer", "near-2^63", "very-small", "very-large"]))
     P.append(_prog("scalars-dates", 'sc_a <- cast("2020-01-15 10:30:00", date); sc_b <- cast("2020-01-15", date); sc_c <- cast("2020-01-15 00:00:00", date);', {},
                    ["scalar", "Date", "date-with-time"]))
@@ -209,13 +210,13 @@ def programs():
     P.append(_prog("computed-cast-to-time-types", 'DS_r <- DS_1[calc a := cast(Me_1, date), b := cast(Me_2, time_period)];', cs, ["Date", "Time_Period", "cast", "null"]))
     P.append(_prog("conditional", 'DS_r <- DS_1[calc a := if Me_1 > 1 then "big, yes" else "small", b := nvl(Me_1, 0), c := nvl(Me_2, -1.5), d := case when Me_1 > 100 then 1 when Me_1 > 0 then 2 else 3];',
                    num, ["conditional", "String", "Number", "Integer", "null"]))
-    P.append(_prog("dataset-level-arithmetic", "DS_r <- DS_1 + DS_1 * 2; DS_q <- DS_1 / 3; DS_n <- -DS_1; DS_c <- DS_1 > 1;", num, ["dataset-arithmetic", "Number", "Boolean", "null"]))
+    P.append(_prog("dataset-level-arithmetic", "DS_r <- DS_1 + DS_1 * 2; DS_q <- DS_1 / 3; DS_n <- -DS_1; DS_c <- DS_1#Me_1 > 1;", num, ["dataset-arithmetic", "Number", "Boolean", "null"]))
     grp = {"DS_1": (["Id_1:Integer:I", "Id_2:String:I", "Me_1:Number:M", "Me_2:Integer:M"],
                     [(1, "a", "1.5", 1), (1, "b", "2.5", None), (2, "a", None, 3), (2, "b", "4", 4), (3, "a,b", "0.1", 5)])}
     P.append(_prog("aggregates", "DS_r <- sum(DS_1 group by Id_1); DS_a <- avg(DS_1 group by Id_2); DS_c <- count(DS_1 group by Id_1); DS_m <- max(DS_1 group by Id_2); DS_n <- min(DS_1 group by Id_1);",
                    grp, ["aggregate", "Number", "Integer", "null"]))
     P.append(_prog("aggregates-statistics", "DS_r <- median(DS_1 group by Id_2); DS_s <- stddev_samp(DS_1 group by Id_2); DS_v <- var_pop(DS_1 group by Id_2);", grp, ["aggregate", "double", "null"]))
-    P.append(_prog("aggr-clause-having", "DS_r <- DS_1[aggr s := sum(Me_1), c := count() group by Id_1 having count() > 1];", grp, ["aggregate"]))
+    P.append(_prog("aggr-clause-having", "DS_r <- DS_1[aggr s := sum(Me_1), c := count(), m := max(Me_2) group by Id_1]; DS_h <- DS_1[aggr s := sum(Me_1) group by Id_1 having avg(Me_1) > 1];", grp, ["aggregate"]))
     P.append(_prog("analytic", "DS_r <- DS_1[calc r := rank(over (partition by Id_1 order by Me_2)), f := first_value(Me_1 over (partition by Id_2 order by Id_1)), l := lag(Me_2, 1 over (partition by Id_2 order by Id_1))];",
                    grp, ["analytic", "null", "Integer", "Number"]))
     P.append(_prog("analytic-dataset", "DS_r <- sum(DS_1 over (partition by Id_2 order by Id_1)); DS_q <- ratio_to_report(DS_1#Me_2 over (partition by Id_1));", grp, ["analytic", "double"]))
@@ -224,12 +225,11 @@ def programs():
     P.append(_prog("cross-join", "DS_r <- cross_join(DS_1 as d1, DS_2 as d2 rename d1#Id_1 to I1, d2#Id_1 to I2, d1#Me_1 to A, d2#Me_1 to B);", two, ["join", "null"]))
     P.append(_prog("set-operators", "DS_u <- union(DS_1, DS_2); DS_i <- intersect(DS_1, DS_2); DS_d <- setdiff(DS_1, DS_2); DS_s <- symdiff(DS_1, DS_2);", two, ["set-operator", "null", "empty-result"]))
     P.append(_prog("clauses", "DS_r <- DS_1[rename Me_1 to Me_9]; DS_k <- DS_1[keep Me_2]; DS_d <- DS_1[drop Me_2]; DS_s <- DS_1[sub Id_2 = \"a\"]; DS_m <- DS_1#Me_1;", grp, ["clauses"]))
-    P.append(_prog("pivot-unpivot", "DS_p <- DS_1[drop Me_2][pivot Id_2, Me_1]; DS_u <- DS_1[unpivot Id_3, Me_3];",
-                   {"DS_1": (["Id_1:Integer:I", "Id_2:String:I", "Me_1:Number:M", "Me_2:Number:M"], [(1, "a", "1.5", "1"), (1, "b", "2.5", None), (2, "a", None, "3")])},
-                   ["pivot", "null"]))
+    P.append(_prog("unpivot", "DS_u <- DS_1[unpivot Id_3, Me_3];",
+                   {"DS_1": (["Id_1:Integer:I", "Me_1:Number:M", "Me_2:Number:M"], [(1, "1.5", "1"), (2, "2.5", None), (3, None, None)])}, ["unpivot", "null"]))
     tp = {"DS_1": (["Id_1:String:I", "Id_2:Time_Period:I", "Me_1:Number:M"],
                    [("a", "2020Q1", "1"), ("a", "2020Q2", "2"), ("a", "2020Q4", None), ("b", "2020Q1", "10"), ("b", "2020Q3", "30")])}
-    P.append(_prog("time-operators-periods", "DS_f <- flow_to_stock(DS_1); DS_s <- stock_to_flow(DS_1); DS_t <- timeshift(DS_1, 1); DS_a <- time_agg(\"A\", DS_1); DS_x <- fill_time_series(DS_1, all);",
+    P.append(_prog("time-operators-periods", "DS_f <- flow_to_stock(DS_1); DS_s <- stock_to_flow(DS_1); DS_t <- timeshift(DS_1, 1); DS_a <- sum(DS_1 group all time_agg(\"A\")); DS_c <- DS_1[calc Me_2 := time_agg(\"A\", Id_2)]; DS_x <- fill_time_series(DS_1, all);",
                    tp, ["time-operator", "Time_Period", "null"]))
     P.append(_prog("time-operators-period-indicator", "DS_r <- DS_1[calc p := period_indicator(Id_2)];", tp, ["time-operator", "Duration"]))
     dt = {"DS_1": (["Id_1:Integer:I", "Me_1:Date:M", "Me_2:Date:M"], [(1, "2020-01-15", "2020-03-01"), (2, "2019-12-31", "2020-01-01"), (3, None, "2020-01-01")])}
@@ -576,12 +576,12 @@ def compare(model, got, folder, fmt):
             if harness.canon_components(obj) != m[1]:
                 devs.append(("returned-dataset:components-differ", "%s: components %s vs %s" % (name, harness.canon_components(obj), m[1])))
         elif m[0] == "scalar":
-            scalars[name] = m
             if not isinstance(obj, Scalar):
                 devs.append(("returned-scalar:kind-differs", "%s is a %s with output_folder" % (name, type(obj).__name__)))
                 continue
             t = type_name(obj.data_type)
             v = norm(obj.value, t)
+            scalars[name] = ("scalar", t, v)   # the file has to hold the values returned by THIS run
             if t != m[1] or not same(v, m[2]):
                 devs.append(("returned-scalar:%s:%s:value-differs-from-in-memory-run" % (m[1], value_class(m[2], m[1])),
                              "scalar %s is %s %r with output_folder, %s %r without" % (name, t, obj.value, m[1], m[2])))
@@ -788,6 +788,61 @@ def work(item, rec):
             rec.count("corpus_calls")
 
 
+def self_test(rec):
+    """the comparer must see a tampered cell, a dropped row, a foreign file and a wrong scalar (else the check is blind)"""
+    from vtlengine import run
+    prog = _programs_by_name()["mixed-persistent-temporary"]
+    kw = materialise(prog)
+    model = describe_model(run(**kw, return_only_persistent=False))
+    blind = []
+    for fmt in FORMATS:
+        folder = os.path.join(_root("selftest"), fmt)
+        shutil.rmtree(folder, ignore_errors=True)
+        got = run(**materialise(prog), return_only_persistent=False, output_folder=folder, output_format=fmt)
+        if compare(model, got, folder, fmt):
+            continue  # a genuine deviation is reported by the lattice itself; nothing to learn here
+        path = os.path.join(folder, "DS_r." + fmt)
+        if fmt == "csv":
+            lines = open(path, encoding="utf-8").read().split("\n")
+            open(path, "w", encoding="utf-8").write("\n".join([lines[0], lines[1] + "e3"] + lines[2:]))
+            if not compare(model, got, folder, fmt):
+                blind.append("csv: tampered cell")
+            open(path, "w", encoding="utf-8").write("\n".join(lines[:-2] + [""]))
+            if not compare(model, got, folder, fmt):
+                blind.append("csv: dropped row")
+            open(path, "w", encoding="utf-8").write("\n".join(lines))
+        else:
+            import pyarrow as pa
+            import pyarrow.parquet as pq
+            tbl = pq.read_table(path)
+            pq.write_table(tbl.slice(0, tbl.num_rows - 1), path)
+            if not compare(model, got, folder, fmt):
+                blind.append("parquet: dropped row")
+            col = tbl.column("Me_1").to_pylist()
+            col[0] = (col[0] or 0) + 1
+            pq.write_table(tbl.set_column(tbl.schema.get_field_index("Me_1"), "Me_1", pa.array(col, type=tbl.schema.field("Me_1").type)), path)
+            if not compare(model, got, folder, fmt):
+                blind.append("parquet: tampered cell")
+            pq.write_table(tbl, path)
+        if compare(model, got, folder, fmt):
+            blind.append(fmt + ": restored file not accepted")
+        open(os.path.join(folder, "stray.tmp"), "w").write("x")
+        if not compare(model, got, folder, fmt):
+            blind.append(fmt + ": foreign file")
+        os.remove(os.path.join(folder, "stray.tmp"))
+        sp = os.path.join(folder, SCALARS_FILE)
+        txt = open(sp, encoding="utf-8", newline="").read()
+        open(sp, "w", encoding="utf-8", newline="").write(txt.replace("sc_r,4", "sc_r,5"))
+        if not compare(model, got, folder, fmt):
+            blind.append(fmt + ": wrong scalar")
+        rec.count("self_test_tamperings_detected", 4 - len([b for b in blind if b.startswith(fmt)]))
+        shutil.rmtree(folder, ignore_errors=True)
+    if blind:
+        rec.tool_error("oracle self-test: the comparer did not notice %s" % blind)
+    if not rec.counters.get("self_test_tamperings_detected"):
+        rec.note("oracle self-test skipped: the probe program already deviates")
+
+
 class Check:
     ID = "C14"
     LEVEL = "exploration"
@@ -818,6 +873,7 @@ class Check:
             if not recs:
                 rec.tool_error("the corpus is empty")
         harness.pmap(work, items, rec)
+        self_test(rec)
         if rec.counters.get("programs", 0) != len(progs):
             rec.tool_error("only %s of %d programs were executed" % (rec.counters.get("programs"), len(progs)))
         trivial_programs = sorted({p["name"] for p in progs} - {k[1] for k in rec.keys if k[0] == "program"})
